@@ -131,6 +131,7 @@ def check(case, ctx):
                                  case={'t': case['t'], 'model': name, 'k': case['k'], 'program': where})
                         return
                     ctx.transitions += 1
+                    ctx.validated += 1     # reference well-formedness / content / laws evaluated for this transition
                     if _snap(g) != before:
                         ctx.fail(f'{op} modified its argument under {name}', case={'t': case['t'], 'model': name, 'k': case['k'], 'program': where})
                         return
